@@ -116,15 +116,19 @@ Theorem C04_observed_answer_may_revert_refuted :
 Proof. exact observed_answer_may_revert. Qed.
 Print Assumptions C04_observed_answer_may_revert_refuted.
 
-(* (c) outside the invariant — a pending file naming a manifest that does not exist (left behind by a setMeta that
-       failed after writing it; newManifest then removes the manifest and REUSES its number): GetMeta answers
-       CURRENT's manifest until a file with the dangling name is created, then the new, possibly still empty,
-       file.  Known finding pending-file-outlives-failed-setmeta. *)
-Theorem C04_dangling_pending_flips_refuted :
+(* (c) WHY a manifest number must never be used again once a SetMeta for it was attempted (repair 901ff3d
+       "fix: do not give back the file number of a manifest whose creation failed").  A setMeta that fails after
+       writing CURRENT.<n> leaves that pending file (or, after a failed directory sync, CURRENT itself) naming
+       MANIFEST-<n>, which newManifest then removes.  The stale pointer is harmless exactly as long as no file of
+       that name exists: GetMeta skips it.  Re-creating MANIFEST-<n> (number given back to the allocator) makes
+       GetMeta answer the new, still EMPTY, file — the directory is outside the invariant [clean].  The harness
+       drives the real session into the failed SetMeta on the real file storage and kills it at every later
+       file operation (fsmodel.go, sessionFaultChecks). *)
+Theorem C04_manifest_number_reuse_refuted :
   get_meta_result ex_dangling_view = GOk (M 5) /\
   get_meta_result (vapply ex_dangling_view (OCreate (gen_name (M 9)))) = GOk (M 9).
 Proof. exact dangling_pending_flips. Qed.
-Print Assumptions C04_dangling_pending_flips_refuted.
+Print Assumptions C04_manifest_number_reuse_refuted.
 
 (* (d) the hypothesis "B is newer than A" is needed: after a completed SetMeta to an OLDER number a stale pending
        file with a number in between wins. *)
